@@ -207,8 +207,11 @@ def catalogue(T):
     for loga in (-5.0, -1.0, 0.0):
         for logb in (-1.0, 0.0, 1.0):
             for xmax in (1.0, 10.0):
+                # the domain is a + b x / xmax > 0: negative x down to -a/b (kept 5% away from it), then the positive range
+                ab = math.exp(loga - logb)
+                xs = xmax * np.concatenate([-ab * lin(0.9, 0.05, 8), geo(0.01, 3.0, 16)])
                 out.append(("LogSinh(loga=%g,logb=%g,xmax=%g)" % (loga, logb, xmax),
-                            mk("LogSinh", {"loga": loga, "logb": logb}, {"xmax": xmax}), xmax * geo(0.01, 3.0, 16), []))
+                            mk("LogSinh", {"loga": loga, "logb": logb}, {"xmax": xmax}), xs, []))
     # (exponents below the 1e-10 switch take the lam = 0 branch; 1e-10 < |lam| < 1e-3 is outside the conditioning region)
     for lam in (0.0, 1e-3, -1e-3, 0.1, -0.1, 1.0, -1.0, 3.0, 5e-11, -5e-11, 3e-13):
         for xmax in (1.0, 10.0):
@@ -253,8 +256,9 @@ def catalogue(T):
             out.append(("Sinh(nu=%r,scale=%r)" % (nu, scale), mk("Sinh", {"nu": nu, "scale": scale}), nu + sym(geo(1e-2, 20, 10)) / max(scale, 0.05), []))
         elif cls == "LogSinh":
             loga, logb, xmax = U(-5, 0), U(-1, 1), LU(0.5, 20)
+            ab = math.exp(loga - logb)
             out.append(("LogSinh(loga=%r,logb=%r,xmax=%r)" % (loga, logb, xmax), mk("LogSinh", {"loga": loga, "logb": logb}, {"xmax": xmax}),
-                        xmax * geo(0.01, 3.0, 16), []))
+                        xmax * np.concatenate([-ab * lin(0.9, 0.05, 8), geo(0.01, 3.0, 16)]), []))
         else:
             lam, xmax = U(-3, 3), LU(0.5, 20)
             if abs(lam) < 1e-3:
